@@ -199,7 +199,7 @@ func checkC12(c *Check) {
 					continue
 				}
 				nAcc++
-				held := la.At(ins)[mu]
+				held := lockFor(la.At(ins), write)[mu]
 				kind := "read"
 				if write {
 					kind = "write"
